@@ -587,6 +587,9 @@ def r_closedset(idx, rep, rule="R-CLOSEDSET"):
                 role = "excl"
             elif isinstance(st, ast.Assign) and isinstance(st.targets[0], ast.Name):
                 role = "excl" if st.targets[0].id in excl_names else None
+                if role is None and any(isinstance(r_, ast.Return) and isinstance(r_.value, ast.Name) and r_.value.id == st.targets[0].id for r_ in ast.walk(f.node)) \
+                        and sum(1 for x in ast.walk(f.node) if isinstance(x, ast.Name) and x.id == st.targets[0].id) == 2:
+                    role = "incl"          # `inside = <comparison>; return inside`
                 if role is None:
                     # used later through logical_not -> inclusion of the complement: still an exclusion comparison
                     tname = st.targets[0].id
